@@ -812,10 +812,12 @@ def check_bounds_map(prog, res, rule='L7'):
     env = {'output_min': guards.Val('bound', smin),
            'output_max': guards.Val('bound', smax)}
     stmts = guards.trace(prog, fn, env)
+    sym_names = {'min_violation', 'max_violation', 'dims', 'axis'}
     branches[(smin != 'none', smax != 'none')] = [
         s for s in stmts if isinstance(s, (ast.AugAssign, ast.Assign))
-        and 'final_projection' in {dotted(t) for t in (
-            s.targets if isinstance(s, ast.Assign) else [s.target])}
+        and not ({dotted(t) for t in (
+            s.targets if isinstance(s, ast.Assign) else [s.target])} &
+                 sym_names)
         and not (isinstance(s, ast.Assign) and dotted(s.value) == 'weights')]
   # one-sided: final += relu(min - aggmin(final)) ; final -= relu(aggmax - max)
   for key, (op, lhs, rhs, word) in {
@@ -869,8 +871,11 @@ def check_bounds_map(prog, res, rule='L7'):
         raise AnalysisError('%s: operator' % fn.loc(s))
       env['final_projection'] = x
     else:
-      x = ratfun.eval_expr(s.value, env)
-      env['final_projection'] = x
+      tgt = dotted(s.targets[0])
+      v = ratfun.eval_expr(s.value, env)
+      env[tgt] = v
+      if tgt == 'final_projection':
+        x = v
   lo = x.subs('x', Rat.sym('m') - Rat.sym('a'))
   hi = x.subs('x', Rat.sym('M') + Rat.sym('b'))
   res.check(lo.equals(Rat.sym('m')), rule,
@@ -894,6 +899,65 @@ def check_bounds_map(prog, res, rule='L7'):
             'are unchanged)',
             'with zero violations the two-sided map is %s, not the identity' %
             ident)
+  # R2: ... and it is the identity STEP BY STEP.  Every operation applied to
+  # the kernel tensor itself must be neutral when nothing is violated (add 0,
+  # multiply by 1).  `x + (a - m)` ... `+ m` is algebraically the identity too,
+  # but in float32 x - m is rounded to ulp(|m|) first, so a feasible kernel
+  # is moved by up to ulp(|output_min|) and tight trust inequalities break.
+  def at_feasible(r):
+    for nm in ('a', 'b'):
+      r = Rat(r.n.subs(nm, ratfun.Poly()), r.d.subs(nm, ratfun.Poly()))
+    return r
+  env2 = {'output_min': Rat.sym('m'), 'output_max': Rat.sym('M'),
+          'min_violation': Rat.sym('a'), 'max_violation': Rat.sym('b'),
+          'final_projection': Rat.sym('x')}
+  one = Rat.sym('x') / Rat.sym('x')
+  zero = Rat.sym('x') - Rat.sym('x')
+  not_neutral = []
+
+  def walk_kernel(e):
+    """checks the operations on the path from the kernel name to the root of
+    e; returns True when e contains the kernel."""
+    if dotted(e) == 'final_projection':
+      return True
+    if isinstance(e, ast.BinOp):
+      l, r = walk_kernel(e.left), walk_kernel(e.right)
+      if l or r:
+        other = e.right if l else e.left
+        if l and r:
+          not_neutral.append(norm_text(e))
+          return True
+        v = at_feasible(ratfun.eval_expr(other, env2))
+        want = zero if isinstance(e.op, (ast.Add, ast.Sub)) else one
+        if not v.equals(want):
+          not_neutral.append('%s %s %s' % (
+              'kernel', type(e.op).__name__, norm_text(other)[:40]))
+        return True
+    return False
+  for s_ in stmts:
+    if isinstance(s_, ast.AugAssign) and dotted(s_.target) == \
+        'final_projection':
+      v = at_feasible(ratfun.eval_expr(s_.value, env2))
+      want = zero if isinstance(s_.op, (ast.Add, ast.Sub)) else one
+      if not v.equals(want):
+        not_neutral.append(norm_text(s_)[:60])
+    elif isinstance(s_, ast.Assign):
+      tgt = dotted(s_.targets[0])
+      if tgt == 'final_projection':
+        walk_kernel(s_.value)
+      else:
+        env2[tgt] = ratfun.eval_expr(s_.value, env2)
+  res.check(not not_neutral, 'R2',
+            '_approximately_project_bounds|two-sided|stepwise-identity',
+            fn.loc(),
+            'every operation on the kernel is neutral (add 0 / multiply by 1) '
+            'when nothing is violated',
+            'the two-sided map translates the kernel by a bound and back '
+            '(%s): the identity holds only algebraically; in float32 the '
+            'kernel is rounded to ulp(|output_min|), so with large bounds a '
+            'feasible kernel is moved (bounds +-1e6 move weights of 0.03 to '
+            'multiples of 0.0625) and trust inequalities break' % (
+                '; '.join(not_neutral)))
   # the violations are the right gated quantities
   defs = {}
   for st in ast.walk(fn.node):
